@@ -128,7 +128,7 @@ impl Property for C10 {
         ]
     }
     fn cases(tier: Tier) -> u64 {
-        tier.pick(100_000, 5_000_000)
+        tier.pick(300_000, 5_000_000)
     }
     fn strategy(_tier: Tier) -> BoxedStrategy<Spec> {
         prop_oneof![
@@ -267,6 +267,6 @@ impl Property for C10 {
         0.3
     }
     fn class_floors() -> Vec<(&'static str, f64)> {
-        vec![("must-reject", 0.03)]
+        vec![("must-reject", 0.01)]
     }
 }
